@@ -6,6 +6,7 @@ import (
 	"bytes"
 	"fmt"
 	"strings"
+	"sync"
 	"testing"
 
 	"github.com/go-gts/gts"
@@ -143,8 +144,61 @@ func c18Long(c c18Case) *Violation {
 	return nil
 }
 
+// c18Concurrent: the operations are functions of their arguments: calls that overlap in time (eight goroutines, each
+// with its own queries on its own copy of the sequence) return what the same calls return one after the other.
+func c18Concurrent(c c18Case) *Violation {
+	queries := strings.Split(c.Query, ",")
+	seqBytes := []byte(c.Seq)
+	type res struct{ match, search, comp string }
+	call := func(q string) (r res, pi *PanicInfo) {
+		pi = guard(func() {
+			seq := gts.New(nil, nil, append([]byte(nil), seqBytes...))
+			qs := gts.New(nil, nil, []byte(q))
+			r.match = fmt.Sprint(gts.Match(seq, qs))
+			r.search = fmt.Sprint(gts.Search(seq, qs))
+			r.comp = string(gts.Complement(qs).Bytes())
+		})
+		return
+	}
+	want := map[string]res{}
+	for _, q := range queries {
+		r, pi := call(q)
+		if pi != nil {
+			skipCase("sequential-call-panicked")
+			return nil
+		}
+		want[q] = r
+	}
+	var mu sync.Mutex
+	var first *Violation
+	var wg sync.WaitGroup
+	for w := 0; w < 8; w++ {
+		wg.Add(1)
+		go func(w int) {
+			defer wg.Done()
+			for round := 0; round < 60; round++ {
+				q := queries[(w+round*3)%len(queries)]
+				r, pi := call(q)
+				mu.Lock()
+				if first == nil {
+					if pi != nil {
+						first = panicViolation(fmt.Sprintf("Match/Search/Complement(%q) called from eight goroutines at once", q), pi)
+					} else if r != want[q] {
+						first = viol("concurrent", "eight goroutines at once: query %q on %q gives match %s search %s complement %q; the same call alone gives match %s search %s complement %q", q, c.Seq, r.match, r.search, r.comp, want[q].match, want[q].search, want[q].comp)
+					}
+				}
+				mu.Unlock()
+			}
+		}(w)
+	}
+	wg.Wait()
+	return first
+}
+
 func c18Check(c c18Case) *Violation {
 	switch c.Mode {
+	case "concurrent":
+		return c18Concurrent(c)
 	case "long":
 		return c18Long(c)
 	case "byte":
@@ -439,6 +493,17 @@ func TestC18(t *testing.T) {
 		}
 	}
 	e2b.done(true)
+	// overlapping calls: eight goroutines with different queries on copies of one sequence
+	ecc := enumPart(t, c18Prop, st, "concurrent-calls")
+	for k, qs := range []string{"gcatgc,atg,nnn,ryk,acgt,ttga,cat,gc", "a,c,g,t,n,r,y,k", "acg,acgt,acgta,cgta,gtac,tacg,ac,gt", "aaaa,aaa,aa,a,tttt,ttt,tt,t"} {
+		seq := strings.Repeat("acgtgcatgcatgacctgatcgatcgtagctaatgrykn", 3+k)
+		for rep := 0; rep < pick(3, 20); rep++ {
+			if !ecc.try(c18Case{Mode: "concurrent", Seq: seq, Query: qs, Byte: rep}) {
+				return
+			}
+		}
+	}
+	ecc.done(false)
 	// pattern syntax: queries that would mean something else if any of their bytes reached a regular-expression engine
 	// unescaped (counted repetition, groups, classes, anchors, flags, escapes), alone and after / between letters;
 	// against the text itself (the only thing they may match) and against what they would match as patterns
